@@ -377,17 +377,24 @@ def fCount (wl wr : Int) : List Row → List Row := perRow wl wr gCount
 def gSum (r : Row) (ctx : List Row) : Row := { r with id := r.id * 1000 + (ctx.map (·.id)).foldl (· + ·) 0 }
 def fSum (wl wr : Int) : List Row → List Row := perRow wl wr gSum
 
-/-- gap grouping: consecutive rows closer than or at `gap` form one group; one output row per
-group spanning it, id = 100 × (id of the first member) + number of members -/
-def gapGroupsAux (gap : Int) (cur : Row) (n : Nat) : List Row → List Row
-  | [] => [{ cur with id := cur.id * 100 + n }]
-  | r :: rest =>
-    if r.time - cur.endt ≤ gap then gapGroupsAux gap { cur with endt := max cur.endt r.endt } (n + 1) rest
-    else { cur with id := cur.id * 100 + n } :: gapGroupsAux gap r 1 rest
-
-def fGap (gap : Int) : List Row → List Row
+/-- gap grouping, the groups: maximal runs of consecutive rows in which every row starts at most
+`gap` after its predecessor ends (right-to-left definition: a row joins the group of its successor
+iff the successor starts within `gap` of its end) -/
+def gapGroups (gap : Int) : List Row → List (List Row)
   | [] => []
-  | r :: rest => gapGroupsAux gap r 1 rest
+  | r :: rest =>
+    match gapGroups gap rest with
+    | (n :: grp) :: gs => if n.time - r.endt ≤ gap then (r :: n :: grp) :: gs else [r] :: (n :: grp) :: gs
+    | gs => [r] :: gs
+
+/-- one output row per group: it spans the group (first start, latest end), id = 100 × (id of the
+first member) + number of members -/
+def summarize : List Row → Row
+  | [] => ⟨0, 0, 0⟩
+  | r :: rest => ⟨r.time, rest.foldl (fun m x => max m x.endt) r.endt, r.id * 100 + (rest.length + 1)⟩
+
+/-- gap grouping: one output row per group of `gapGroups` -/
+def fGap (gap : Int) (rows : List Row) : List Row := (gapGroups gap rows).map summarize
 
 /-- pairing by id parity (a group-forming computation whose two variants interlock like bricks):
 a row whose id has parity `par` absorbs its successor when that one starts within `gap` -/
